@@ -444,19 +444,32 @@ def native_replay(prop, job, inputs, tag):
             f.write("%s %s\n" % (k, hx))
     env = dict(os.environ, VC_REPLAY_INPUT=inp, ASAN_OPTIONS="detect_leaks=0:abort_on_error=0:allocator_may_return_null=1",
                UBSAN_OPTIONS="print_stacktrace=1")
-    p = subprocess.run([exe], cwd=wd, env=env, stdout=subprocess.PIPE, stderr=subprocess.STDOUT, timeout=120)
-    txt = p.stdout.decode(errors="replace")
-    if "VC_ASSUME_FALSE" in txt:
-        oc = "inputs-violate-assumption"
-    elif "VC_CHECK_FAILED" in txt or "AddressSanitizer" in txt or "runtime error:" in txt:
-        oc = "reproduced"
-    elif p.returncode == -6 or p.returncode == 134:
-        oc = "clean-abort"
-    elif p.returncode < 0:
-        oc = "reproduced"   # crashed with a signal other than abort
-    else:
-        oc = "not-reproduced"
-    return dict(outcome=oc, exit=p.returncode, output=txt[-4000:], cmd=" ".join(cmd), input_file=inp)
+    oc = "not-reproduced"; txt = ""; rcode = None; mode = "exact"
+    for mode in ("exact", "generic-values"):
+        if mode == "generic-values":
+            if not job.remove_bodies and not job.replace:
+                break          # no callee was abstracted: the exact input is the only meaningful replay
+            env = dict(env, VC_REPLAY_NICE="1")
+        try:
+            p = subprocess.run([exe], cwd=wd, env=env, stdout=subprocess.PIPE, stderr=subprocess.STDOUT, timeout=30)
+            txt = p.stdout.decode(errors="replace"); rcode = p.returncode
+        except subprocess.TimeoutExpired as e:
+            txt = (e.stdout or b"").decode(errors="replace") + "\n[native run did not terminate within 30 s]"; rcode = "timeout"
+            oc = "native-timeout"
+            continue
+        if "VC_ASSUME_FALSE" in txt:
+            oc = "inputs-violate-assumption"
+        elif "VC_CHECK_FAILED" in txt or "AddressSanitizer" in txt or "runtime error:" in txt:
+            oc = "reproduced"
+        elif rcode in (-6, 134):
+            oc = "clean-abort"
+        elif isinstance(rcode, int) and rcode < 0:
+            oc = "reproduced"   # crashed with a signal other than abort
+        else:
+            oc = "not-reproduced"
+        if oc == "reproduced":
+            break
+    return dict(outcome=oc, mode=mode, exit=rcode, output=txt[-4000:], cmd=" ".join(cmd), input_file=inp)
 
 
 def load_known():
@@ -684,7 +697,7 @@ def main():
         return 0
     if a.replay:
         return replay_file(a.prop, a.replay)
-    return check_property(a.prop, a.tier, a.jobs.split(",") if a.jobs else None, a.v)
+    return check_property(a.prop, a.tier, a.jobs.split(";") if a.jobs else None, a.v)
 
 
 if __name__ == "__main__":
